@@ -152,7 +152,7 @@ def units(tier):
     return u
 
 
-BUDGET = {"quick": 240, "thorough": 2400}
+BUDGET = {"quick": 240, "thorough": 1200}
 UNIT_PATH_CAP = {"quick": 250, "thorough": 20000}
 BOUNDS = {
     "quick": "catalogue S1 + 6 map shapes + 10 S2 shapes; encode direction: all values within the C01 sizes; decode direction: one knob at a time "
